@@ -218,6 +218,9 @@ class Reference:
                 self._resolve(self._fut(stmt["f"]), stmt["v"])
             elif op == "cancel":
                 self._cancel(stmt["h"])
+            elif op == "add_hook":
+                proc.hooks.append(stmt["hook"])
+                self._stat("hooks_added_in_flight")
             elif op == "sub":
                 proc.frames.append([stmt["body"], 0, path + "."])
             elif op == "delay":
@@ -282,7 +285,7 @@ class Reference:
             for fname, v in action.get("resolve") or []:
                 self._resolve(self._fut(fname), v)
             out = self._make_events(action.get("events"), "emit")
-            return out + self._run_hooks(rec["hooks"])
+            return out + self._run_hooks(list(rec["hooks"]) + list(action.get("add_hooks") or []))
         proc = _RProc(rec["pid"], rec["ent"], rec["daemon"], rec["hooks"], action.get("ret"), action.get("style"))
         proc.frames.append([action["body"], 0, ""])
         return self._advance(proc, None)
@@ -386,6 +389,7 @@ class RealRun:
         self.pid = 0
         self.events: dict[int, Any] = {}
         self.trace_recorder = trace_recorder
+        self._shared_empty: list = []
         self.sim = None
         self.entities = []
         self.clock = None
@@ -464,7 +468,7 @@ class RealRun:
             return [RealRun._norm(x) for x in v]
         return v
 
-    def _body(self, body, prefix, pid):
+    def _body(self, body, prefix, pid, event=None):
         for idx, stmt in enumerate(body):
             path = f"{prefix}{idx}"
             op = stmt["op"]
@@ -472,11 +476,16 @@ class RealRun:
                 self._fut(stmt["f"]).resolve(stmt["v"])
             elif op == "cancel":
                 self._cancel(stmt["h"])
+            elif op == "add_hook":
+                event.add_completion_hook(self._mk_hook(stmt["hook"]))
             elif op == "sub":
-                yield from self._body(stmt["body"], path + ".", pid)
+                yield from self._body(stmt["body"], path + ".", pid, event)
             elif op == "delay":
                 side = stmt.get("side")
-                if side is None:
+                if stmt.get("side_style") == "shared":
+                    # one list object shared by every yield of the run (a module-level NO_EVENTS = [] idiom)
+                    got = yield (stmt["d"], self._shared_empty)
+                elif side is None:
                     got = yield stmt["d"]
                 else:
                     evs = self._make_events(side)
@@ -488,8 +497,8 @@ class RealRun:
             else:
                 raise ValueError(op)
 
-    def _proc(self, action, pid):
-        yield from self._body(action["body"], "", pid)
+    def _proc(self, action, pid, event=None):
+        yield from self._body(action["body"], "", pid, event)
         self.log.append(("F", self.clock.now.nanoseconds, pid))
         return self._style(self._make_events(action.get("ret")), action.get("style", "list"))
 
@@ -519,8 +528,10 @@ class RealRun:
                     run._cancel(action.get("cancel"))
                     for fname, v in action.get("resolve") or []:
                         run._fut(fname).resolve(v)
+                    for h in action.get("add_hooks") or []:
+                        event.add_completion_hook(run._mk_hook(h))
                     return run._style(run._make_events(action.get("events")), action.get("style", "list"))
-                return run._proc(action, pid)
+                return run._proc(action, pid, event)
 
         self.entities = [ScriptEntity(i) for i in range(self.p["n_ent"])]
         pre = self.p["pre"]
